@@ -256,8 +256,8 @@ AXIOMS = {
     'C01': [('re_gt', ax_re_gt)], 'C13': [('re_gt', ax_re_gt)], 'C04': [('re_gt', ax_re_gt)],
     'C15': [('args_ref', ax_args_ref)],
     'C10': [('env_ref', ax_env_ref)],
-    'C11': [('dot', ax_dot)],
-    'C05': [('dot', ax_dot), ('args_ref', ax_args_ref), ('env_ref', ax_env_ref)],
+    # (the substitution passes no longer use regexes: nothing to validate for C11)
+    'C05': [('args_ref', ax_args_ref), ('env_ref', ax_env_ref)],
 }
 
 
